@@ -6,7 +6,19 @@ from fractions import Fraction as Fr
 import math
 
 
+def _unwrap(x):
+    """numpy wraps scalars handed to polyval etc. into 0-d object arrays"""
+    try:
+        import numpy as np
+        if isinstance(x, np.ndarray) and x.ndim == 0:
+            return x.item()
+    except Exception:
+        pass
+    return x
+
+
 def _fr(x):
+    x = _unwrap(x)
     if isinstance(x, Q):
         return x.v
     if isinstance(x, bool):
@@ -39,6 +51,7 @@ class Q(object):
         return self
 
     def _c(self, o):
+        o = _unwrap(o)
         if isinstance(o, QC):
             return o
         if isinstance(o, complex):
@@ -98,6 +111,7 @@ class Q(object):
 
 
 def _q(x):
+    x = _unwrap(x)
     if isinstance(x, Q):
         return x
     r = _fr(x)
@@ -114,6 +128,7 @@ class QC(object):
 
     @staticmethod
     def lift(o):
+        o = _unwrap(o)
         if isinstance(o, QC):
             return o
         if isinstance(o, complex):
@@ -153,6 +168,9 @@ class QC(object):
 
     def conjugate(self):
         return QC(self.real, -self.imag)
+
+    def __abs__(self):
+        return sqrt_standin(self.real * self.real + self.imag * self.imag)
 
     def __eq__(self, o):
         try:
